@@ -1,5 +1,6 @@
 (* C07 -- Snapshot variable table is closed and de-duplicated by object identity. *)
-From Deep Require Import Base Config Collector CollectorProofs.
+From Deep Require Import Base Config Collector CollectorProofs PureSupport TieTraverse.
+From DeepGen Require Import PCollect.
 
 (* one object, one id: the id cache of a whole snapshot never holds an object twice, and two
    references carry the same id exactly when they denote the same object *)
@@ -72,3 +73,21 @@ Theorem C07_terminates :
   forall c h fifo fuel s, (mu c h s <= fuel)%nat -> finished (run fuel fifo c h s) = true.
 Proof. intros c h fifo fuel s. apply run_terminates. Qed.
 Print Assumptions C07_terminates.
+
+(* ---- tie by translation: process_variable as it is in /repo/src NOW (gen/PCollect.v), run on the model's identity cache
+   (object identities in recording order), table and heap *)
+(* identity first: an object that is already recorded keeps its id; nothing is added, its children are not processed again *)
+Theorem C07_the_code_reuses_the_id_of_a_known_object :
+  forall c h n k v, lookup_cache (k_cache k) (n_oid n) = Some v ->
+  code_process c h n k = ((m_ref n v, false), k).
+Proof. exact code_process_known. Qed.
+Print Assumptions C07_the_code_reuses_the_id_of_a_known_object.
+
+(* an object seen for the first time gets the next id, exactly one table entry - which carries ITS identity - and is expanded *)
+Theorem C07_the_code_records_a_new_object_once :
+  forall c h n k, lookup_cache (k_cache k) (n_oid n) = None ->
+  let '((r, b), k') := code_process c h n k in
+  r = m_ref n (S (length (k_cache k))) /\ b = true /\ k_cache k' = k_cache k ++ [n_oid n] /\
+  k_table k' = k_table k ++ [(S (length (k_cache k)), record_var c h (n_oid n))] /\ k_roots k' = k_roots k.
+Proof. exact code_process_new. Qed.
+Print Assumptions C07_the_code_records_a_new_object_once.
